@@ -16,7 +16,7 @@ from sa.layout import ints, read_atoms, write_atoms
 from sa.loader import call_name, norm, own_nodes, parent
 from sa.ranges import has, has_bound, refusal_constraints
 from sa.report import Report
-from rules.sigcommon import rule_bool_total, rule_normalise
+from rules.sigcommon import rule_bool_total, rule_config_forwarded, rule_normalise
 
 NOTES = ("C03: decides the r/s/x range refusals and that they dominate every use (every batch member included), zero-"
          "challenge refusals, the non-zero batch coefficient, totality of the wrappers and the 64-byte codec; the BIP340 "
@@ -139,7 +139,34 @@ def rule_codec(ctx: Ctx, rep: Report) -> None:
     rep.ob(rule, "parse:slices", set(sl) == {"sig_bin[:ec.p_size]", "sig_bin[ec.p_size:]"}, p.where(), f"slices {sorted(sl)}")
 
 
+def rule_signer_config(ctx: Ctx, rep: Report) -> None:
+    """C03.signer_config: the Signer hands its own curve and hash function to every function it delegates to."""
+    rule_config_forwarded(ctx, rep, "C03.signer_config", f"{S}.Signer", {"_ec": "ec", "_hf": "hf"}, 3)
+
+
+def rule_verify_range(ctx: Ctx, rep: Report) -> None:
+    """C03.verify_range: "False otherwise" -- the key and r that the challenge
+    writes with a fixed-width to_bytes are range-checked before it on every
+    path (the lift `_y_even_var` is that check on the Python arm); else an
+    out-of-range key is an OverflowError instead of an answer."""
+    from rules.C19 import rule_to_bytes_range
+    rule_to_bytes_range(ctx, rep, "C03.verify_range", only_module=S, floor=3)
+
+
+def rule_signer_arm(ctx: Ctx, rep: Report) -> None:
+    """C03.signer_arm: a Signer signs on the arm its state was laid out for at
+    construction (key in the bindings' buffer, or as an int): it never asks the
+    dispatch predicate again, whose answer is process-wide state that may have
+    moved -- else the signature depends on that state and not on (key, message)."""
+    from rules.C04 import token_reask
+    token_reask(ctx, rep, "C03.signer_arm", S)
+    rep.floor("C03.signer_arm", 2)
+
+
 RULES = [
+    ("C03.signer_arm", rule_signer_arm),
+    ("C03.signer_config", rule_signer_config),
+    ("C03.verify_range", rule_verify_range),
     ("C03.sig_range", rule_sig_range),
     ("C03.normalise", rule_normalise_),
     ("C03.challenge_nonzero", rule_challenge_nonzero),
@@ -149,6 +176,13 @@ RULES = [
 ]
 
 CONTROLS = [
+    {"rule": "C03.signer_config", "name": "Signer.sign_ falls back without its hash function", "module": S,
+     "edit": lambda ctx: M.sub_expr(ctx, f"{S}.Signer.sign_", lambda n: isinstance(n, ast.Call) and call_name(n) == "sign_" and len(n.args) >= 5,
+                                    "sign_(msg, self._q, aux, self._ec, verify=verify)")},
+    {"rule": "C03.verify_range", "name": "the lift no longer precedes the challenge", "module": S,
+     "edit": lambda ctx: M.sub_expr(ctx, f"{S}.assert_as_valid_", M.is_text("y_Q = _y_even_var(x_Q, sig.ec)"), "y_Q = 0")},
+    {"rule": "C03.signer_arm", "name": "Signer.sign_ asks the predicate again", "module": S,
+     "edit": lambda ctx: M.sub_expr(ctx, f"{S}.Signer.sign_", M.is_text("self._signer is None"), "not _libsecp256k1_serves(self._ec, self._hf)")},
     {"rule": "C03.sig_range", "name": "s may equal n", "module": S,
      "edit": lambda ctx: M.sub_expr(ctx, f"{S}.Sig.assert_valid", M.is_text("0 <= self.s < self.ec.n"), "0 <= self.s <= self.ec.n")},
     {"rule": "C03.normalise", "name": "batch members not validated", "module": S,
